@@ -55,7 +55,7 @@ Definition chk_tlsraw (c o : value) : bool :=
             | VL [VI calls; VI st; VB body; VI e; VI notified; VI stalled] =>
                 (* the answer arrives whole and the connection is shut in an orderly way, not reset - also when the client
                    sent more than its request *)
-                (calls =? 1) && (st =? 200) && (beq body (B "ok") || beq body (B "len=3145728") || (Z.of_nat (List.length body) =? 3000)) && (e =? 0) &&
+                (calls =? 1) && (st =? 200) && (beq body (B "ok") || beq body (B "len=3145728") || beq body (B "len=12582912") || (Z.of_nat (List.length body) =? 3000)) && (e =? 0) &&
                 (* write-progress notifications add up to the body written (C18), whatever the transport; no event handler keeps
                    the server's thread away from its event loop while a client reads slowly (C11) *)
                 ((notified =? -1) || (notified =? 3000)) && negb (as_bool stalled)
